@@ -80,6 +80,51 @@ theorem runM_func {V : Type} (w : World (SM σ) V) (f : Func) (args : Locals V) 
     cases c <;> rfl
 
 
+/-! ### the same for functions without object state, evaluated in `Except String` -/
+
+@[simp] theorem exc_pure {ε α : Type} (a : α) : (pure a : Except ε α) = .ok a := rfl
+@[simp] theorem exc_throw {ε α : Type} (e : ε) : (throw e : Except ε α) = .error e := rfl
+@[simp] theorem exc_bind_ok {ε α β : Type} (a : α) (f : α → Except ε β) : (Except.ok a >>= f) = f a := rfl
+@[simp] theorem exc_bind_error {ε α β : Type} (e : ε) (f : α → Except ε β) : (Except.error e >>= f) = .error e := rfl
+@[simp] theorem exc_map_ok {ε α β : Type} (a : α) (f : α → β) : (f <$> (Except.ok a : Except ε α)) = .ok (f a) := rfl
+@[simp] theorem exc_map_error {ε α β : Type} (e : ε) (f : α → β) : (f <$> (Except.error e : Except ε α)) = .error e := rfl
+
+theorem exc_block_cons {V : Type} (w : World (Except String) V) (loc : Locals V) (s : Stmt) (rest : List Stmt) :
+    evalBlock w loc (s :: rest) = match evalStmt w loc s with
+      | .ok (.next, loc') => evalBlock w loc' rest
+      | .ok (.ret v, loc') => .ok (.ret v, loc')
+      | .error e => .error e := by
+  rw [evalBlock]
+  cases evalStmt w loc s with
+  | error e => rfl
+  | ok cl =>
+    rcases cl with ⟨c, loc'⟩
+    cases c <;> rfl
+
+@[simp] theorem exc_block_nil {V : Type} (w : World (Except String) V) (loc : Locals V) :
+    evalBlock w loc [] = .ok (.next, loc) := by
+  rw [evalBlock]; rfl
+
+theorem exc_func {V : Type} (w : World (Except String) V) (f : Func) (args : Locals V) :
+    f.run w args = match evalBlock w args f.body with
+      | .ok (.next, _) => .ok w.none
+      | .ok (.ret v, _) => .ok v
+      | .error e => .error e := by
+  rw [Func.run]
+  cases evalBlock w args f.body with
+  | error e => rfl
+  | ok cl =>
+    rcases cl with ⟨c, loc'⟩
+    cases c <;> rfl
+
+open Lean.Parser.Tactic in
+/-- `pystep` for `Except String` -/
+macro "pystepE" "[" ls:simpLemma,* "]" : tactic =>
+  `(tactic| (rw [exc_block_cons]
+             conv in (evalStmt _ _ _) =>
+               simp [evalStmt, evalExpr, evalBlock, evalArgs, evalKws, assignTo, $ls,*]
+             try dsimp only))
+
 open Lean.Parser.Tactic in
 /-- evaluate the first statement of the block being run (and only it: the rest of the block stays folded), then move on -/
 macro "pystep" "[" ls:simpLemma,* "]" : tactic =>
